@@ -174,6 +174,17 @@ def props_of(prog, f, c09):
     return PROPS + (['C09'] if f.path in c09 else []) + (['C10'] if f.self_adt in prog.tree_adts else [])
 
 
+def scrub_strings(t):
+    """assertion messages are prose: compare the conditions, not the text"""
+    if isinstance(t, tuple):
+        if len(t) == 2 and t[0] == 'lit' and isinstance(t[1], str) and ('"' in t[1] or t[1].startswith('Str(')):
+            return ('lit', '<text>')
+        return tuple(scrub_strings(x) for x in t)
+    if isinstance(t, list):
+        return [scrub_strings(x) for x in t]
+    return t
+
+
 def rename_map(prog, trees):
     """private functions that exist under a name of their own in one copy only, paired by their guarded effects with
     a function the copy lacks but the other copies have (a local rename): {local name: name in the other copies}"""
@@ -313,7 +324,7 @@ def run(ctx):
             ctx.add(RULE, f, 'sibling(%s)' % key[1], 'ok', 'identical canonical form in the %s copies' % '/'.join(fams[t] for t in have), props_of(prog, f, c09), f.line, {'copies': [fams[t] for t in have]})
             # the copies are the same code: their debug assertions must be the same too (a wrong assertion panics in debug
             # builds within the contract)
-            dbg = {t: canon_fn(cores[t][key].hir, 'num', keep_dbg=True) for t in have}
+            dbg = {t: scrub_strings(canon_fn(cores[t][key].hir, 'num', keep_dbg=True)) for t in have}
             if any(dbg[t] != canon_fn(cores[t][key].hir, 'num') for t in have):
                 groups = {}
                 for t in have:
